@@ -149,6 +149,16 @@ class Program:
                 mi.globals_[node.targets[0].id] = node.value
             elif isinstance(node, ast.AnnAssign) and isinstance(node.target, ast.Name) and node.value is not None:
                 mi.globals_[node.target.id] = node.value
+            elif isinstance(node, ast.Assign):
+                # A, B = x, y  /  A = B = x  at module level
+                for tgt in node.targets:
+                    if isinstance(tgt, ast.Name):
+                        mi.globals_[tgt.id] = node.value
+                    elif isinstance(tgt, (ast.Tuple, ast.List)) and isinstance(node.value, (ast.Tuple, ast.List)) and len(tgt.elts) == len(node.value.elts) \
+                            and not any(isinstance(e, ast.Starred) for e in list(tgt.elts) + list(node.value.elts)):
+                        for t_, v_ in zip(tgt.elts, node.value.elts):
+                            if isinstance(t_, ast.Name):
+                                mi.globals_[t_.id] = v_
         self.modules[modname] = mi
 
     def _resolve_bases(self) -> None:
